@@ -394,7 +394,17 @@ def run_threads(res: Result, seed: int) -> None:
         time.sleep(rng.choice([0.0, 0.1, 0.3, 0.5]))
         # some traffic for the browser thread
         zc.loop.call_soon_threadsafe(net.inject_now, host, R.build_response([(("PTR", T2, ("x." + T2,)), 4500, False)], id_=1), ("10.0.0.9", 5353))
-        time.sleep(0.05)
+        # wait until the browser thread has delivered that announcement (logical quiescence instead of a fixed 50 ms)
+        waited = time.monotonic() + 15.0
+        while time.monotonic() < waited:
+            with lock:
+                if any(ev[1].startswith("add x.") for ev in events):
+                    break
+            time.sleep(0.01)
+        else:
+            res.inconclusive.append("thread run: the browser thread did not deliver a callback within 15 s (machine overloaded?)")
+            zc.close()
+            return
         t0 = time.monotonic()
         closer = threading.Thread(target=zc.close, daemon=True)
         closer.start()
